@@ -165,7 +165,7 @@ def gate_scenarios() -> list[dict[str, Any]]:
     return out
 
 
-_RE = re.compile(r'<<"MONITOR",\s*(\d+),\s*"([^"]*)",\s*"([^"]*)">>')
+_RE = re.compile(r'<<\s*"MONITOR",\s*(\d+),\s*"([^"]*)",\s*"([^"]*)"\s*>>')
 
 
 def judge(traces, rep) -> dict[str, str]:
